@@ -70,7 +70,7 @@ let choice_of_order (order : int list) (full : (nat * n) list) : nat list option
          let l' = List.filteri (fun j _ -> j <> i) l in
          (match go t l' with None -> None | Some rest -> Some (nat_of_int i :: rest))) in
   go order full
-type script = { s_c : int; s_kind : cb; s_queued : bool; s_op : op }
+type script = { s_c : int; s_kind : cb; s_queued : int; s_op : op; s_active : bool }    (* s_queued: 0 direct, 1 Q, 2 QQ *)
 let () =
   let e = ref (Some ep_init) and p = ref (Some pp_init) in
   let hic = ref 0 and hif = ref 0 in
@@ -81,11 +81,24 @@ let () =
   let runs side (c : nat) : bool =
     let i = int_of_nat c in if i < maxch then handle_runs tied.(side).(i) owner.(side).(i) else true in
   let handler (c : nat) (k : cb) : op list =
-    List.filter_map (fun s -> if s.s_c = int_of_nat c && s.s_kind = k && not s.s_queued then Some s.s_op else None) !scripts in
+    List.filter_map (fun s -> if s.s_active && s.s_c = int_of_nat c && s.s_kind = k && s.s_queued = 0 then Some s.s_op else None) !scripts in
   let hq (c : nat) (k : cb) : nat list =
-    List.concat (List.mapi (fun i s -> if s.s_c = int_of_nat c && s.s_kind = k && s.s_queued then [nat_of_int i] else []) !scripts) in
+    List.concat (List.mapi (fun i s -> if s.s_active && s.s_c = int_of_nat c && s.s_kind = k && s.s_queued > 0 then [nat_of_int i] else []) !scripts) in
+  (* functor i (< 1000) = what script i queues; a QQ functor only queues functor 1000+i, which makes the call *)
   let fb (i : nat) : op list * nat list =
-    (match List.nth_opt !scripts (int_of_nat i) with Some s -> ([s.s_op], []) | None -> ([], [])) in
+    let i = int_of_nat i in
+    if i >= 1000 then (match List.nth_opt !scripts (i - 1000) with Some s -> ([s.s_op], []) | None -> ([], []))
+    else (match List.nth_opt !scripts i with
+          | Some s -> if s.s_queued = 2 then ([], [nat_of_int (1000 + i)]) else ([s.s_op], [])
+          | None -> ([], [])) in
+  (* the loop's own descriptors (open k W / open k T): environment, channels constructed on them, pending functors per side *)
+  let wdesc = ref 99999 and tdesc = ref 99999 and wch = ref 99999 and tch = ref 99999 in
+  let special = ref false in
+  let kw = ref 0 and kt = ref 0 and armed = ref 0 in
+  let pending = [| ref ([] : nat list); ref ([] : nat list) |] in
+  let wake_rd = handleRead_env eventLoop_handleRead_reads_wakeupfd eventLoop_eventfd_semaphore eventLoop_handleRead_read_size in
+  let timer_rd = timerRead_env timerQueue_handleRead_reads_timerfd timerQueue_readTimerfd_read_size in
+  let qw = eventLoop_queueInLoop_wake_guard in
   (* a fresh Channel object is untied: after every step, forget the tie of every id that is not alive on that side *)
   let sync_ties () =
     for c = 0 to !hic - 1 do
@@ -99,7 +112,9 @@ let () =
       | New (c, _) -> let ci = int_of_nat c in if ci < maxch then (tied.(side).(ci) <- false; owner.(side).(ci) <- false)
       | _ -> ()) created in
   let note_op (o : op) = (match o with
-    | New (c, f) -> hic := max !hic (int_of_nat c + 1); hif := max !hif (int_of_nat f + 1)
+    | New (c, f) -> hic := max !hic (int_of_nat c + 1); hif := max !hif (int_of_nat f + 1);
+        if int_of_nat f = !wdesc then wch := int_of_nat c;
+        if int_of_nat f = !tdesc then tch := int_of_nat c
     | _ -> ()) in
   let loopcase = ref false in
   let bad = ref false in
@@ -109,6 +124,9 @@ let () =
     | [] -> ()
     | "case" :: id :: rest ->
         e := Some ep_init; p := Some pp_init; hic := 0; hif := 0; bad := false;
+        wdesc := 99999; tdesc := 99999; wch := 99999; tch := 99999; special := false; kw := 0; kt := 0; armed := 0;
+        pending.(0) := []; pending.(1) := [];
+        List.iter (fun w -> if w = "only=E" then p := None else if w = "only=P" then e := None) rest;
         Array.iter (fun a -> Array.fill a 0 maxch false) tied; Array.iter (fun a -> Array.fill a 0 maxch false) owner;
         scripts := [];
         Printf.printf "case %s abi=1,2,4,8,16,32,8192 epoll_eq_poll=1\n" id;
@@ -121,7 +139,17 @@ let () =
     | ["end"] -> print_string "end\n"; flush stdout
     | _ when !loopcase -> ()
     | _ when !bad -> print_string "skipped\n"; flush stdout
+    | ["open"; k; "W"] -> wdesc := int_of_string k; special := true; print_string "env\n"; flush stdout
+    | ["open"; k; "T"] -> tdesc := int_of_string k; special := true; print_string "env\n"; flush stdout
     | ("open" | "wr" | "drain" | "hc" | "pc" | "fill" | "unfill" | "close") :: _ -> print_string "env\n"; flush stdout
+    | ["WAKE"] -> incr kw; print_string "wake\n"; flush stdout
+    | ["TIMER"] -> incr kt; incr armed; print_string "timer\n"; flush stdout
+    | ["HAS"; cs] ->
+        let c = nat_of_int (int_of_string cs) in
+        let b x = if x then "1" else "0" in
+        Printf.printf "has E=%s P=%s\n" (match !e with None -> "-" | Some st -> b (ep_hasChannel st c))
+          (match !p with None -> "-" | Some st -> b (pp_hasChannel st c)); flush stdout
+    | "FOREIGN" :: _ -> print_string "FAULT-NOT-IN-LOOP-THREAD (abortNotInLoopThread)\n"; flush stdout
     | ["INJ"; cs; bits] ->
         let ci = int_of_string cs in
         let ks = if ci >= 0 && ci < maxch then handle_event tied.(0).(ci) owner.(0).(ci) (n_of_int (int_of_string bits))
@@ -134,18 +162,18 @@ let () =
         print_string "tie\n"; flush stdout
     | ["DROP"; cs] -> let ci = int_of_string cs in owner.(0).(ci) <- false; owner.(1).(ci) <- false; print_string "drop\n"; flush stdout
     | "ON" :: cs :: kind :: rest ->
-        let queued, rest = (match rest with "Q" :: r -> true, r | r -> false, r) in
+        let queued, rest = (match rest with "Q" :: r -> 1, r | "QQ" :: r -> 2, r | r -> 0, r) in
         (match rest with
          | opn :: c2s :: more ->
            let arg = (match more with a :: _ -> int_of_string a | [] -> 0) in
            (match op_of opn (int_of_string c2s) arg with
             | Some o -> note_op o;
-                scripts := !scripts @ [{ s_c = int_of_string cs; s_kind = cb_of_name kind; s_queued = queued; s_op = o }];
+                scripts := !scripts @ [{ s_c = int_of_string cs; s_kind = cb_of_name kind; s_queued = queued; s_op = o; s_active = true }];
                 print_string "on\n"
             | None -> print_string "invalid ON\n"; bad := true)
          | _ -> print_string "invalid ON\n"; bad := true);
         flush stdout
-    | ["OFF"] -> scripts := []; print_string "off\n"; flush stdout
+    | ["OFF"] -> scripts := List.map (fun s -> { s with s_active = false }) !scripts; print_string "off\n"; flush stdout
     | "LOOP" :: ws ->
         let order = List.fold_left (fun acc w ->
           if String.length w >= 6 && String.sub w 0 6 = "order=" then
@@ -153,10 +181,28 @@ let () =
                     (String.split_on_char ',' (String.sub w 6 (String.length w - 6))))
           else acc) None ws in
         let ws = List.filter (fun w -> not (String.length w >= 6 && String.sub w 0 6 = "order=")) ws in
-        let rd = parse_ready ws in
-        let ready (f:nat) : n = (match List.assoc_opt (int_of_nat f) rd with Some b -> n_of_int b | None -> N0) in
-        let env = cat (List.map (fun (k,b) -> soi k ^ ":" ^ soi b) (List.sort compare (List.filter (fun (_,b) -> b <> 0) rd))) in
+        let rd = List.filter (fun (k, _) -> k <> !wdesc && k <> !tdesc) (parse_ready ws) in
+        let k_rd (f:nat) : n = (match List.assoc_opt (int_of_nat f) rd with Some b -> n_of_int b | None -> N0) in
+        let wfd = nat_of_int !wdesc and tfd = nat_of_int !tdesc in
+        let env0 = { k_wake = n_of_int !kw; k_texp = n_of_int !kt; k_rd = k_rd } in
+        (* what a raw poll of every open descriptor shows before the iteration (the loop's own ones from the model's environment) *)
+        (* the driver queues quit() before loop() is entered: in the loop thread, not calling functors, NOT looping;
+           with the loop's own descriptors open it does so before it observes the descriptors *)
+        let env1 = if qw true false false then wake_add (nat_of_int 1) env0 else env0 in
+        let all = rd @ (if !wdesc < 99999 then [(!wdesc, int_of_n (env_ready wfd tfd env1 wfd))] else [])
+                     @ (if !tdesc < 99999 then [(!tdesc, int_of_n (env_ready wfd tfd env1 tfd))] else []) in
+        let env = cat (List.map (fun (k,b) -> soi k ^ ":" ^ soi b) (List.sort compare (List.filter (fun (_,b) -> b <> 0) all))) in
+        let ready = env_ready wfd tfd env1 in
+        let eff = loop_effects wake_rd timer_rd (nat_of_int !wch) (nat_of_int !tch) (fun _ _ x -> x) in
         let fn_string l = cat (List.map (fun i -> soi (int_of_nat i)) l) in
+        let after = ref None in
+        let tail side (e' : kenv) (log : (nat * cb) list) =
+          after := Some e';
+          if not !special then "" else begin
+            let fired = List.exists (fun (c, k) -> int_of_nat c = !tch && k = CbRead) log in
+            let tf = if fired then !armed else 0 in
+            ignore side;
+            Printf.sprintf " w=%d t=%d tf=%d" (int_of_n e'.k_wake) (if int_of_n e'.k_texp > 0 then 1 else 0) tf end in
         let es = (match !e with None -> "E dead" | Some st ->
           let full = ep_full st ready in
           let n = min (List.length full) (int_of_nat st.e_cap) in
@@ -166,10 +212,10 @@ let () =
           (match choice with
            | None -> "E order-not-a-part-of-the-ready-set full=[" ^ act_string full ^ "]"
            | Some ch ->
-             (match ep_loop_iter_full handler hq fb (runs 0) st ready ch [] with
-              | Ok ((((st', act), log), ran), _) -> e := Some st'; untie_created 0 log ran;
-                  Printf.sprintf "E ok n=%d cap=%d [%s] cb=%s fn=%s" (List.length act) (int_of_nat st'.e_cap)
-                    (act_string_ordered act) (log_string log) (fn_string ran)
+             (match loop_iter_full_env ep_step_current handler hq fb (runs 0) eff qw wfd tfd st env1 !(pending.(0)) ch with
+              | Ok (((st', e'), pend'), ((act, log), ran)) -> e := Some st'; untie_created 0 log ran; pending.(0) := pend';
+                  Printf.sprintf "E ok n=%d cap=%d [%s] cb=%s fn=%s%s" (List.length act) (int_of_nat st'.e_cap)
+                    (act_string_ordered act) (log_string log) (fn_string ran) (tail 0 e' log)
               | Rejected ->
                   (* the batch hit a violated precondition: show what was polled, the side is dead *)
                   let s = (match ep_step_current st (Poll (ready, ch)) with
@@ -178,20 +224,26 @@ let () =
                   e := None; s
               | Fault -> e := None; "E FAULT"))) in
         let ps = (match !p with None -> "P dead" | Some st ->
-          (match pp_loop_iter_full_current handler hq fb (runs 1) st ready [] [] with
-           | Ok ((((st', act), log), ran), _) -> p := Some st'; untie_created 1 log ran;
-               Printf.sprintf "P ok n=%d [%s] cb=%s fn=%s" (List.length act) (act_string_ordered act) (log_string log) (fn_string ran)
+          (match loop_iter_full_env pp_step_current handler hq fb (runs 1) eff qw wfd tfd st env1 !(pending.(1)) [] with
+           | Ok (((st', e'), pend'), ((act, log), ran)) -> p := Some st'; untie_created 1 log ran; pending.(1) := pend';
+               Printf.sprintf "P ok n=%d [%s] cb=%s fn=%s%s" (List.length act) (act_string_ordered act) (log_string log) (fn_string ran) (tail 1 e' log)
            | Rejected ->
                let s = (match pp_step_current st (Poll (ready, [])) with
                  | Ok (_, act) -> Printf.sprintf "P rejected n=%d [%s]" (List.length act) (act_string_ordered act)
                  | _ -> "P rejected") in
                p := None; s
            | Fault -> p := None; "P FAULT")) in
+        (* the loop's own descriptors exist once: with them open a case runs on one side only *)
+        (match !after with
+         | Some e' -> kw := int_of_n e'.k_wake; kt := int_of_n e'.k_texp;
+             if int_of_n e'.k_texp = 0 then armed := 0
+         | None -> kw := int_of_n env1.k_wake);
         sync_ties ();
         Printf.printf "loop env=%s %s | %s || %s\n" env es ps
           (if alive_count !e !p !hic > 16 then "big" else state_string !e !p !hic !hif);
         if !e = None && !p = None then bad := true;
         flush stdout
+    | "POLL" :: _ when !special -> print_string "invalid POLL with the loop's own descriptors open: use LOOP\n"; bad := true; flush stdout
     | "POLL" :: ws ->
         let rd = parse_ready ws in
         let ready (f:nat) : n = (match List.assoc_opt (int_of_nat f) rd with Some b -> n_of_int b | None -> N0) in
